@@ -305,7 +305,7 @@ Qed.
 Lemma redesign_eol_refuted : exists c f y1 y2, (0 < c_eol c)%Q /\
   f_cout (conn_n c false 1 f) = Some y1 /\ f_cout (conn_n c false 2 f) = Some y2 /\ (y2 == y1 + c_eol c)%Q /\ ~ (y2 == y1)%Q.
 Proof.
-  exists (mkCfg 150000 50000 10 0 (1 # 2) (3 # 2)), (mkFib "f" false (inject_Z 80000) (1 # 5000) (Some 0%Q) (Some (1 # 2)) 0 []).
+  exists (mkCfg 150000 50000 10 0 (1 # 2) (3 # 2) (fun _ => 0%Q)), (mkFib "f" false (inject_Z 80000) (1 # 5000) (Some 0%Q) (Some (1 # 2)) 0 []).
   eexists. eexists. split; [reflexivity|]. split; [reflexivity|]. split; [reflexivity|]. split; vm_compute; congruence.
 Qed.
 (* with EOL = 0 connector losses are stable *)
@@ -332,18 +332,19 @@ Proof.
 Qed.
 
 (* padding is stable: a span that has been padded is not padded again *)
+Lemma span_sl_bump : forall c g d t, (span_sl c (bump (Fib g) d :: t) == span_sl c (Fib g :: t) + d)%Q.
+Proof. intros. unfold span_sl. rewrite fib_loss_bump, raman_first_bump. ring. Qed.
 Lemma pad_run_idem : forall c r r', pad_run c r = Ok r' -> pad_run c r' = Ok r'.
 Proof.
   intros c r r' H. unfold pad_run in H.
   destruct (last r dflt) as [f|n lo|a] eqn:El.
   - destruct (f_raman f) eqn:Er.
     + inversion H; subst r'. unfold pad_run. rewrite El, Er. reflexivity.
-    + destruct (has_raman r) eqn:Hr; [discriminate|].
-      destruct (Qltb (run_loss r) (c_pad c)) eqn:Elt.
+    + destruct (Qltb (span_sl c r) (c_pad c)) eqn:Elt.
       * destruct r as [|[g|n lo|a] t].
         -- inversion H; subst r'. reflexivity.
         -- inversion H; subst r'. clear H. unfold pad_run.
-           set (d := (c_pad c - run_loss (Fib g :: t))%Q) in *.
+           set (d := (c_pad c - span_sl c (Fib g :: t))%Q) in *.
            assert (L : exists f', last (bump (Fib g) d :: t) dflt = Fib f' /\ f_raman f' = false).
            { destruct t as [|e2 t2].
              - cbn in El. inversion El; subst f. eexists. split; [reflexivity | exact Er].
@@ -351,42 +352,43 @@ Proof.
            destruct L as (f' & L1 & L2).
            change (Fib {| f_name := f_name g; f_raman := f_raman g; f_len := f_len g; f_lc := f_lc g; f_cin := f_cin g;
                           f_cout := f_cout g; f_att := f_att g + d; f_lumped := f_lumped g |}) with (bump (Fib g) d).
-           rewrite L1, L2, has_raman_bump, Hr.
-           assert (Hge : Qltb (run_loss (bump (Fib g) d :: t)) (c_pad c) = false).
-           { apply Qltb_ge. rewrite fib_loss_bump. unfold d. ring_simplify. apply Qle_refl. }
+           rewrite L1, L2.
+           assert (Hge : Qltb (span_sl c (bump (Fib g) d :: t)) (c_pad c) = false).
+           { apply Qltb_ge. rewrite span_sl_bump. unfold d. ring_simplify. apply Qle_refl. }
            rewrite Hge. reflexivity.
-        -- inversion H; subst r'. unfold pad_run. rewrite El, Er, Hr, Elt. reflexivity.
-        -- inversion H; subst r'. unfold pad_run. rewrite El, Er, Hr, Elt. reflexivity.
-      * inversion H; subst r'. unfold pad_run. rewrite El, Er, Hr, Elt. reflexivity.
+        -- inversion H; subst r'. unfold pad_run. rewrite El, Er, Elt. reflexivity.
+        -- inversion H; subst r'. unfold pad_run. rewrite El, Er, Elt. reflexivity.
+      * inversion H; subst r'. unfold pad_run. rewrite El, Er, Elt. reflexivity.
   - inversion H; subst r'. unfold pad_run. rewrite El. reflexivity.
   - inversion H; subst r'. unfold pad_run. rewrite El. reflexivity.
 Qed.
 
-(* the span loss cached for the amplifier design is the loss of the padded span (after gnpy fix 13a35c31) *)
-Lemma run_dsl_spec : forall c r r', pad_run c r = Ok r' -> last_plain_fib r = true -> has_raman r = false ->
-  (run_dsl c r == run_loss r')%Q.
+(* the span loss cached for the amplifier design is the loss of the padded span minus the estimated Raman gains
+   (after gnpy fix 13a35c31) *)
+Lemma run_dsl_spec : forall c r r', pad_run c r = Ok r' -> last_plain_fib r = true ->
+  (run_dsl c r == span_sl c r')%Q.
 Proof.
-  intros c r r' H Hl Hr. unfold run_dsl.
+  intros c r r' H Hl. unfold run_dsl.
   destruct (pad_run_shape c r r' H) as [E|(g & t & E1 & E2 & Hlt)].
-  - subst r'. destruct (Qltb (run_loss r) (c_pad c)) eqn:E; [|reflexivity].
+  - subst r'. destruct (Qltb (span_sl c r) (c_pad c)) eqn:E; [|reflexivity].
     (* below the padding but unchanged: only when the first element is not a fibre *)
     unfold pad_run in H. unfold last_plain_fib in Hl.
     destruct (last r dflt) as [f|n lo|a]; try discriminate.
-    apply Bool.negb_true_iff in Hl. rewrite Hl, Hr, E in H.
+    apply Bool.negb_true_iff in Hl. rewrite Hl, E in H.
     destruct r as [|[g|n lo|a] t]; try reflexivity.
     exfalso. inversion H as [H1]. apply (f_equal f_att) in H1.
     cbn [f_att] in H1. apply Qltb_lt in E.
-    assert (Hq : (f_att g + (c_pad c - run_loss (Fib g :: t)) == f_att g)%Q) by (rewrite H1; reflexivity). lra.
-  - subst r r'. apply Qltb_lt in Hlt. rewrite Hlt. rewrite fib_loss_bump. ring.
+    assert (Hq : (f_att g + (c_pad c - span_sl c (Fib g :: t)) == f_att g)%Q) by (rewrite H1; reflexivity). lra.
+  - subst r r'. apply Qltb_lt in Hlt. rewrite Hlt. rewrite span_sl_bump. ring.
 Qed.
 (* hence the redesign of an exported padded span sees the same loss as the first design *)
 Lemma run_dsl_stable : forall c r r', pad_run c r = Ok r' -> (run_dsl c r' == run_dsl c r)%Q.
 Proof.
   intros c r r' H. destruct (pad_run_shape c r r' H) as [E|(g & t & E1 & E2 & Hlt)]; [subst r'; reflexivity|].
   subst r r'. unfold run_dsl.
-  assert (Hge : Qltb (run_loss (bump (Fib g) (c_pad c - run_loss (Fib g :: t)) :: t)) (c_pad c) = false).
-  { apply Qltb_ge. rewrite fib_loss_bump. ring_simplify. apply Qle_refl. }
-  rewrite Hge. apply Qltb_lt in Hlt. rewrite Hlt. rewrite fib_loss_bump. reflexivity.
+  assert (Hge : Qltb (span_sl c (bump (Fib g) (c_pad c - span_sl c (Fib g :: t)) :: t)) (c_pad c) = false).
+  { apply Qltb_ge. rewrite span_sl_bump. ring_simplify. apply Qle_refl. }
+  rewrite Hge. apply Qltb_lt in Hlt. rewrite Hlt. rewrite span_sl_bump. reflexivity.
 Qed.
 (* the export keeps the lumped losses (gnpy fix 562b868b for finding F19): same positions and losses, hence the same
    fibre loss *)
